@@ -2,6 +2,9 @@
 use crate::mc::{CaseResult, Ctx};
 use serde_json::Value;
 
+pub mod common;
+pub mod c17;
+pub mod c18;
 pub mod c19;
 
 pub struct Prop {
@@ -16,7 +19,7 @@ pub struct Prop {
 }
 
 pub fn registry() -> Vec<Prop> {
-    vec![c19::prop()]
+    vec![c17::prop(), c18::prop(), c19::prop()]
 }
 
 /// Helper for replay functions: deserialize the stored case and run it.
